@@ -2,6 +2,7 @@ import vlib
 
 KEY_A = "iface-resync-list-failure-swallowed"
 KEY_B = "iface-resync-forgets-route-on-other-iface"
+KEY_C = "renumber-keeps-old-ifindex-state"
 
 _cache = {}          # coq term of a case -> known-finding key or None
 _state = {}
@@ -11,6 +12,15 @@ def _classify_batch(ctx, terms):
     """One extra coqc run: for every oracle-failing case, does the oracle accept the run of the model with fix A / fix B /
     both applied (Spec.classify_case)?  That tells the two known findings from anything new."""
     todo = [t for t in terms if t not in _cache]
+    if not todo:
+        return
+    # third finding first: does running the model with fix C alone make the oracle accept?
+    failingC, _ = _state["orig_eval"](ctx, CFG["imports"], "(fun c => (fixedC_ok c, false))", todo, shard=CFG.get("shard", 400))
+    explC = {i: a for (i, a, b) in failingC}
+    for i, t in enumerate(todo):
+        if explC.get(i, False):
+            _cache[t] = KEY_C
+    todo = [t for t in todo if t not in _cache]
     if not todo:
         return
     failing, _ = _state["orig_eval"](ctx, CFG["imports"], "classify_case", todo, shard=CFG.get("shard", 400))
